@@ -789,11 +789,14 @@ def perform(H, mut):
                 ctx.count("class:update_values_from_data_drops_a_component")
             src = W.gen_data_model(rng, "d%d_r%d" % (di, len(H.mutlog)), tuple(mut["shape"]),
                                    [n for n in names if n in W.COMP_KINDS], dtypes=H.dtypes)
+            for n in names:       # extra columns (added by component_bookkeeping) that something refers to stay
+                if n not in W.COMP_KINDS and n in used_names(H, di):
+                    src.comps.append([n, "float", W.gen_values(rng, "float", src.shape)])
             src.restrict = m.restrict
             if mut["extra"] and "q" not in names:
                 src.comps.append(["q", "float", W.gen_values(rng, "float", src.shape)])
             H.models[di] = src
-            H.extra_comps = []
+            H.extra_comps = [n for n in H.extra_comps if n in [c[0] for c in src.comps]]
             H.data_undo = [u for u in H.data_undo if u[0] != di]
             source = W.build_data(src, rng if H.layouts else None)
             call = lambda: d.update_values_from_data(source)
@@ -883,7 +886,8 @@ def perform(H, mut):
         di = mut["d"]
         m, d = H.models[di], live.datas[di]
         how = mut["how"]
-        if how == "remove" and not H.extra_comps:
+        removable = [n for n in H.extra_comps if n not in used_names(H, di)]
+        if how == "remove" and not removable:
             how = "add"
         ctx.count("mutations:component_bookkeeping:" + how)
         try:
@@ -899,7 +903,8 @@ def perform(H, mut):
                 d.add_component(np.array(arr), name)
                 H.extra_comps.append(name)
             else:
-                name = H.extra_comps.pop(rng.randrange(len(H.extra_comps)))     # from the middle, not the end
+                name = rng.choice(removable)     # from the middle, not the end
+                H.extra_comps.remove(name)
                 m.comps = [c for c in m.comps if c[0] != name]
                 d.remove_component(d.id[name])
         except Exception as e:
